@@ -96,6 +96,8 @@ class LayoutTyper(Structured):
         self.fi = fi
         self.report = report
         self.factor_names = set(factor_names)
+        from ..normalise import Defs
+        self.defs = Defs(fi.body)
         self.env0 = {}
         kinds = dict(self.infer_param_kinds(fi))
         kinds.update(param_kinds or {})
@@ -277,17 +279,22 @@ class LayoutTyper(Structured):
                             'index tuple built over %s applied to array laid out by %s' % (show(sv.a), show(base.a)))
                         return V('arr', ('marginalize', base.a, sv.b), deps=base.deps)
                 iv = self.ev(idx, env, quiet)
+                if iv.kind == 'slices':
+                    ok = iv.a == base.a
+                    rep('index-by-name', e, ok,
+                        'index tuple built over %s applied to array laid out by %s' % (show(iv.a), show(base.a)))
+                    return V('arr', ('marginalize', base.a, iv.b), deps=base.deps)
                 if iv.kind == 'arr':       # boolean-mask selection: result is flat, positional
                     return V('arr', ('positional', 'mask selection'), deps=base.deps | iv.deps)
                 return V('arr', ('positional', 'subscript ' + U(idx)), deps=base.deps)
             return UNK
         if isinstance(e, (ast.Tuple, ast.List)):
             return V('seq')
-        if isinstance(e, ast.ListComp):
+        if isinstance(e, (ast.ListComp, ast.GeneratorExp)):
             return self.ev_slices(e, env)
         if isinstance(e, ast.Call):
             return self.ev_call(e, env, quiet, rep)
-        if isinstance(e, (ast.GeneratorExp, ast.DictComp, ast.SetComp, ast.Lambda, ast.Dict, ast.Set,
+        if isinstance(e, (ast.DictComp, ast.SetComp, ast.Lambda, ast.Dict, ast.Set,
                           ast.JoinedStr, ast.Starred)):
             return UNK
         return UNK
@@ -580,6 +587,9 @@ class LayoutTyper(Structured):
         return V('arr', ('positional', 'squeeze'), deps=arr.deps)
 
     def reshape(self, node, arr, shape, env):
+        from ..normalise import expand
+        if isinstance(shape, ast.Name) and env.get(shape.id) is None or (isinstance(shape, ast.Name) and env[shape.id].kind in ('unk', 'seq', 'scalar')):
+            shape = expand(shape, self.defs)
         # V.reshape(D.shape + tuple([1]*k))  |  + (1,)*k
         if isinstance(shape, ast.BinOp) and isinstance(shape.op, ast.Add):
             D = self.shape_of(shape.left, env)
@@ -618,14 +628,22 @@ class LayoutTyper(Structured):
         base = arr.a[1] if arr.a[0] == 'pad' else arr.a
         padded = arr.a[0] == 'pad'
 
-        def is_leading_range(x, axname):
-            # range(len(ax))
-            return (isinstance(x, ast.Call) and isinstance(x.func, ast.Name) and x.func.id == 'range'
+        from ..normalise import expand
+
+        def is_leading_range(x, other, other_val):
+            # range(len(ax)) - ax the other side, or anything with as many elements as the looked-up attribute list
+            x = expand(x, self.defs)
+            if not (isinstance(x, ast.Call) and isinstance(x.func, ast.Name) and x.func.id == 'range'
                     and len(x.args) == 1 and isinstance(x.args[0], ast.Call)
                     and isinstance(x.args[0].func, ast.Name) and x.args[0].func.id == 'len'
-                    and len(x.args[0].args) == 1 and U(x.args[0].args[0]) == axname)
+                    and len(x.args[0].args) == 1):
+                return False
+            a = x.args[0].args[0]
+            if U(a) == U(other) or U(a) == U(expand(other, self.defs)):
+                return True
+            return other_val.kind == 'axes' and self.attrs_term(a, env) == other_val.b
 
-        if dv.kind == 'axes' and is_leading_range(src, U(dst)):
+        if dv.kind == 'axes' and is_leading_range(src, dst, dv):
             # V : D0 (its leading axes are D0's attributes); destination = E.axes(attrs(D0))
             E, S = dv.a, dv.b
             ok = S == ('attrsof', base)
@@ -635,7 +653,7 @@ class LayoutTyper(Structured):
             if ok:
                 return V('arr', E, deps=arr.deps, flags={'partial'} if padded else ())
             return V('arr', ('positional', 'moveaxis to foreign positions'), deps=arr.deps)
-        if sv.kind == 'axes' and is_leading_range(dst, U(src)) and not padded:
+        if sv.kind == 'axes' and is_leading_range(dst, src, sv) and not padded:
             # moveaxis(V, D0.axes(S), range(len)) : the attributes S of D0 become the leading axes
             D0, S = sv.a, sv.b
             ok = D0 == base
